@@ -21,6 +21,7 @@ import (
 	"fmt"
 	"hash/fnv"
 	"reflect"
+	"regexp"
 	"runtime"
 	"sort"
 	"strings"
@@ -140,6 +141,7 @@ type Result struct {
 	Probes     map[string]int
 	Faults     map[string]int
 	Leaked     []string // tasks that had not exited when the run ended (after teardown)
+	StuckSites []string // for deadlock verdicts: sorted distinct sites where tasks are stuck
 	TapeUsed   int
 	Diverged   bool // replay tape did not match labels/arity
 	TasksTotal int
@@ -167,6 +169,7 @@ type Sched struct {
 	Invariant func() // evaluated by the scheduler before every choice (root goroutine; must not lock)
 	finalRan  bool
 	mutexes   map[*Mutex]struct{}
+	stuckSites []string
 }
 
 // Run executes body as task 0 inside a fresh synctest bubble under a new
@@ -238,6 +241,7 @@ func (s *Sched) fill(res *Result) {
 	res.TapeUsed = s.tape.Used()
 	res.Diverged = s.tape.Diverged()
 	res.TasksTotal = len(s.tasks)
+	res.StuckSites = s.stuckSites
 	for _, t := range s.tasks {
 		if t.state != stExited {
 			res.Leaked = append(res.Leaked, t.String()+":"+t.state.String()+"@"+t.point)
@@ -253,6 +257,16 @@ func (s *Sched) checkStuck() {
 	}
 	stuck := s.Stuck(false)
 	site := "?"
+	seen := map[string]bool{}
+	for _, d := range stuck {
+		for _, m := range siteRe.FindAllString(d, -1) {
+			if !seen[m] {
+				seen[m] = true
+				s.stuckSites = append(s.stuckSites, m)
+			}
+		}
+	}
+	sort.Strings(s.stuckSites)
 	s.mu.Lock()
 	for _, t := range s.tasks {
 		if t.state == stExited || !t.Workload {
@@ -1049,6 +1063,8 @@ func goid() uint64 {
 	return id
 }
 
+var siteRe = regexp.MustCompile(`[A-Za-z0-9_]+\.go:[^ ;)]+\)?[A-Za-z0-9_.]*`)
+
 const modPrefix = "capnproto.org/go/capnp/v3"
 
 // callerSite returns "file.go:Func" of the first caller frame outside simrt.
@@ -1074,6 +1090,9 @@ func frameSite(file, fn string) string {
 	}
 	if i := strings.LastIndexByte(fn, '/'); i >= 0 {
 		fn = fn[i+1:]
+	}
+	if i := strings.IndexByte(fn, '.'); i >= 0 {
+		fn = fn[i+1:] // drop the package qualifier
 	}
 	return file + ":" + fn
 }
